@@ -44,9 +44,9 @@ class Ctx:
         z3.set_param('sat.random_seed', seed & 0x7fffffff)
 
     # ------------------------------------------------------------------ solver access
-    def solve(self, constraints, timeout_ms=None):
+    def solve(self, constraints, timeout_ms=None, logic=None):
         """returns ('sat', model) | ('unsat', None) | ('unknown', reason)"""
-        s = z3.Solver()
+        s = z3.SolverFor(logic) if logic else z3.Solver()
         s.set('timeout', timeout_ms or self.timeout_ms)
         s.set('random_seed', self.seed & 0x7fffffff)
         for c in constraints:
@@ -128,8 +128,8 @@ class Ctx:
             rec['status'] = 'cex-not-reproduced'
             self.inconclusive.append('counterexample for %s did not reproduce on the real build: %s' % (name, res.get('detail')))
 
-    def witness(self, name, pc, cond=None):
-        r, m = self.solve(list(pc) + ([cond] if cond is not None else []))
+    def witness(self, name, pc, cond=None, logic=None):
+        r, m = self.solve(list(pc) + ([cond] if cond is not None else []), logic=logic)
         okk = r == 'sat'
         self.witnesses.append({'name': name, 'sat': okk})
         if not okk:
